@@ -900,7 +900,10 @@ impl Sys {
         for (i, kind) in cfg.listeners.iter().enumerate() {
             match kind {
                 LKind::Tcp => {
-                    let lst = std::net::TcpListener::bind("127.0.0.1:0").expect("bind");
+                    // a loopback address of our own: other processes on this machine that connect to
+                    // 127.0.0.1:<recycled ephemeral port> cannot reach this listener by accident
+                    let ip = format!("127.89.{}.{}:0", std::process::id() % 250 + 1, exec % 250 + 1);
+                    let lst = std::net::TcpListener::bind(&ip).or_else(|_| std::net::TcpListener::bind("127.0.0.1:0")).expect("bind");
                     w.laddrs.borrow_mut().push(LAddr::Tcp(lst.local_addr().unwrap()));
                     builder = builder
                         .listen(format!("svc{i}"), lst, move || fn_factory(move || async move { Ok::<_, ()>(ScriptedSvc::create(i)) }))
